@@ -20,6 +20,11 @@ Oracle after every refresh of level R (for all levels 0..R):
   * filter_L.all == specification of level L's current settings evaluated on
     root_data[.][view_L] (box, polygon, invalid, manual, limit) - guards the
     "filter is re-created when the parent changed" mechanism.
+
+Three history classes in which dclab is known to break the property are predicted by the
+model *before* the refresh (`Sim.pre_refresh`, `_after_refresh`) and reported under their own
+narrow signatures (known_findings.d/C04.json); all other assertions keep running:
+  uncommitted-edit-overtaken, stale-chain-mapping, parent-events-replaced-same-filter-array.
 """
 import numpy as np
 from hypothesis import strategies as st
@@ -708,7 +713,7 @@ class Sim:
                 # child.hparent[f].shape reads event 0 of level L-2
                 empty_anc = L >= 3 and len(self.lv[L - 2].view) == 0
                 if e.ndim > 1 and f not in ("image", "mask") and empty_anc:
-                    rec.fail(f"feature/{fk_of(self, f)}/getitem-raises/empty-ancestor-level",
+                    rec.fail(f"feature/{fk}/getitem-raises/empty-ancestor-level",
                              f"level {L}: child['{f}'] raises {exc!r} because an "
                              f"intermediate level has no events")
                     continue
@@ -994,9 +999,6 @@ class Sim:
         else:  # pragma: no cover
             raise ValueError(k)
 
-
-def fk_of(sim, f):
-    return sim.fkind(f)
 
 
 def run_case(spec, rec):
